@@ -25,38 +25,51 @@ NOT_COVERED = ['Search::search / quiescence_search bodies', 'Uci::go_command par
 TUS = tu('search.cpp', 'types.cpp')
 ITER, SEARCH, PRINT = 'Search__iter_search', 'Search__search', 'Search__print_info'
 CANARY = '\n#ifdef CANARY\n  __CPROVER_assert(0, "CANARY: must fail (reachability of the point after the call)");\n#endif\n'
-# the root move set as a ghost characteristic array over the 2^17 move encodings (array reads are allowed in loop invariants, calls are not)
-GH = ('int g_last_depth; _Bool G_ISROOT[131072];\n#define verif_is_root(m) (((m) >> 17) == 0 && G_ISROOT[(m) & 0x1ffffu])\n')
-HOOKS = {'drop_fields': ('_counter_move_table', '_history_score', '_move_orderer', '_scorer')}
+# the root move set through a ghost: G_BAD is an arbitrary move encoding that is NOT a root move (NO_MOVE is one such value); the assumed search
+# contract says the PV never starts with it, the obligation is that the best move is never it - for every such G_BAD, i.e. the best move is a root move
+GH = ('int g_last_depth; uint32_t G_BAD;\n#define verif_is_root(m) ((m) != G_BAD)\n')
+HOOKS = {'drop_fields': ('_counter_move_table', '_history_score', '_move_orderer', '_scorer'), 'vector_view_fields': ('_root_moves',)}
 VINF = '640001'
-C_SEARCH = ('__CPROVER_requires(depth >= 1 && depth <= 40)\n'
-            '__CPROVER_assigns(self->stop_search, self->check_limits_counter, self->_stats, __CPROVER_object_whole(self->_stack_info))\n'
-            '__CPROVER_ensures(-%s < __CPROVER_return_value && __CPROVER_return_value < %s)\n' % (VINF, VINF) +
+# the whole search stack as one (array-typed) assigns target
+STK = 'self->_stack_info'
+CNT = 'self->check_limits_counter >= 0 && self->check_limits_counter <= 40960'
+C_SEARCH = ('__CPROVER_requires(depth >= 1 && depth <= 40 && %s)\n' % CNT +
+            '__CPROVER_assigns(self->stop_search, self->check_limits_counter, self->_stats, ' + STK + ')\n'
+            '__CPROVER_ensures(-%s < __CPROVER_return_value && __CPROVER_return_value < %s && %s)\n' % (VINF, VINF, CNT) +
             '__CPROVER_ensures((!self->stop_search && alpha < __CPROVER_return_value && __CPROVER_return_value < beta) ==> (info->_pv_list_length >= 1 && info->_pv_list_length <= 80 && verif_is_root(info->_pv_list[0])))\n')
 C_PRINT = ('__CPROVER_requires(depth == g_last_depth + 1 && depth <= 40 && (self->limits.depth == 0 || depth <= self->limits.depth) && info->_pv_list_length >= 1)\n'
            '__CPROVER_assigns(g_last_depth)\n__CPROVER_ensures(g_last_depth == depth)\n')
-C_ITER = ('__CPROVER_requires(g_last_depth == 0 && !self->stop_search && !G_ISROOT[0])\n'
-          '__CPROVER_requires(self->limits.depth == 0 || self->_search_depth == self->limits.depth)\n'
-          '__CPROVER_assigns(self->_best_move, self->_current_depth, self->_stats, self->stop_search, self->check_limits_counter, __CPROVER_object_whole(self->_stack_info), g_last_depth)\n'
+C_ITER = ('__CPROVER_requires(g_last_depth == 0 && %s)\n' % CNT +
+          '__CPROVER_requires(self->limits.depth >= 0 && (self->limits.depth == 0 || self->_search_depth == self->limits.depth))\n'
+          '__CPROVER_requires(-(1LL << 40) < self->_search_time && self->_search_time < (1LL << 40))\n'
+          '__CPROVER_requires(self->_root_moves__size >= 1 && __CPROVER_r_ok(self->_root_moves__data, 4 * self->_root_moves__size) && verif_is_root(self->_root_moves__data[0]))\n'
+          '__CPROVER_assigns(self->_best_move, self->_current_depth, self->_stats, self->stop_search, self->check_limits_counter, ' + STK + ', g_last_depth)\n'
           '__CPROVER_ensures(verif_is_root(self->_best_move))\n'
-          '__CPROVER_ensures(g_last_depth <= 40 && (self->limits.depth == 0 || g_last_depth <= self->limits.depth))\n')
+          '__CPROVER_ensures(0 <= g_last_depth && g_last_depth <= 40 && (self->limits.depth == 0 || g_last_depth <= self->limits.depth))\n')
 LC = {
-    (ITER, 1): ['__CPROVER_assigns(self->_best_move, self->_current_depth, self->_stats, self->stop_search, self->check_limits_counter, __CPROVER_object_whole(self->_stack_info), g_last_depth, '
+    (ITER, 1): ['__CPROVER_assigns(self->_best_move, self->_current_depth, self->_stats, self->stop_search, self->check_limits_counter, ' + STK + ', g_last_depth, '
                 'previous_score, __CPROVER_object_whole(previous_moves), min_bound, max_bound, elapsed)',
-                '__CPROVER_loop_invariant(0 <= self->_current_depth && self->_current_depth <= 40 && 0 <= g_last_depth && g_last_depth <= self->_current_depth)',
+                '__CPROVER_loop_invariant(0 <= self->_current_depth && self->_current_depth <= 39 && (self->_current_depth == 0 || self->_current_depth < self->_search_depth))',
+                '__CPROVER_loop_invariant(0 <= g_last_depth && g_last_depth <= self->_current_depth && %s)' % CNT,
                 '__CPROVER_loop_invariant(!self->stop_search ==> g_last_depth == self->_current_depth)',
-                '__CPROVER_loop_invariant(g_last_depth >= 1 ==> verif_is_root(self->_best_move))',
-                '__CPROVER_loop_invariant(self->limits.depth == 0 || g_last_depth <= self->limits.depth)'],
-    (ITER, 2): ['__CPROVER_assigns(result, min_bound, max_bound, delta, self->stop_search, self->check_limits_counter, self->_stats, __CPROVER_object_whole(self->_stack_info))',
-                '__CPROVER_loop_invariant(1 <= self->_current_depth && self->_current_depth <= 40)'],
+                '__CPROVER_loop_invariant(verif_is_root(self->_best_move))',
+                '__CPROVER_loop_invariant(self->_current_depth >= 1 ==> (-%s < previous_score && previous_score < %s))' % (VINF, VINF),
+                '__CPROVER_loop_invariant(-%s <= min_bound && min_bound <= %s && -%s <= max_bound && max_bound <= %s)' % (VINF, VINF, VINF, VINF)],
+    (ITER, 2): ['__CPROVER_assigns(result, min_bound, max_bound, delta, self->stop_search, self->check_limits_counter, self->_stats, ' + STK + ')',
+                '__CPROVER_loop_invariant(0 <= delta && delta <= %s && %s)' % (VINF, CNT),
+                '__CPROVER_loop_invariant(-%s <= min_bound && min_bound <= %s && -%s <= max_bound && max_bound <= %s)' % (VINF, VINF, VINF, VINF)],
+    ('compute_search_delta', 1): ['__CPROVER_assigns(i, no_times_move_repeated)',
+                                  '__CPROVER_loop_invariant(0 <= i && i <= current_depth - 1 && 0 <= no_times_move_repeated && no_times_move_repeated <= current_depth - 1 - i)',
+                                  '__CPROVER_decreases(i)'],
 }
 
 
 def jobs(tier, seed):
-    h = ('struct Search nondet_Search(void);\nvoid h_it(void) { struct Search S = nondet_Search(); %s(&S);' % ITER + CANARY + '}\n')
+    h = ('struct Search nondet_Search(void); uint32_t nondet_u32(void); size_t nondet_size(void);\nuint32_t ROOTS[8];\n'
+         'void h_it(void) { struct Search S = nondet_Search(); size_t n = nondet_size(); __CPROVER_assume(n >= 1 && n <= 8); S._root_moves__data = ROOTS; S._root_moves__size = n;\n'
+         '  for (int i = 0; i < 8; i++) ROOTS[i] = nondet_u32(); G_BAD = nondet_u32(); g_last_depth = 0;\n  %s(&S);' % ITER + CANARY + '}\n')
     j = Job('iter_search', TUS, [ITER], h, 'h_it', contracts={ITER: C_ITER, SEARCH: C_SEARCH, PRINT: C_PRINT}, nobody=[SEARCH, PRINT], loopc=LC, enforce=ITER,
-            replace=[SEARCH, PRINT], loop_contracts=True, hooks=HOOKS, pre_text=GH, timeout=2400, expect=['loop_invariant_step'],
-            unwindset=loops_unwind([('compute_search_delta', 42)]),
+            replace=[SEARCH, PRINT], stubs=[SEARCH, PRINT], loop_contracts=True, hooks=HOOKS, pre_text=GH, timeout=2400, expect=['loop_invariant_step'],
             route='loop contracts on the iterative-deepening loop and the aspiration loop (partial correctness; termination assumed)',
             note='iter_search: best move is a root move for every stop timing; reported depths consecutive and within the limit; per-depth array and stack indices in bounds')
     return [j]
